@@ -27,6 +27,13 @@ class Doc(pg.Object):
   note: pg.typing.Str().noneable() = None
 
 
+class Unprintable:
+  """A leaf whose repr fails: rendering it raises part-way through."""
+
+  def __repr__(self):
+    raise RuntimeError('unprintable')
+
+
 class _Tok(HTMLParser):
   def __init__(self):
     super().__init__(convert_charrefs=True)
@@ -136,7 +143,7 @@ def _options(collapse, tip1, tip2, kstyle, flt, maxlen, uncollapse):
   else:
     raise Assume()
   if flt == 1:
-    opts['exclude_keys'] = ['plain', 'n']
+    opts['exclude_keys'] = ['plain', 'n', 'l']
   elif flt == 2:
     opts['include_keys'] = lambda k, v, p: True
   elif flt != 0:
@@ -154,7 +161,7 @@ def _options(collapse, tip1, tip2, kstyle, flt, maxlen, uncollapse):
   return opts
 
 
-def h_render(params, k0, k1, kn, v0, v1, vn, o0, on, collapse, tip1, tip2, kstyle, flt, maxlen, uncollapse):
+def h_render(params, k0, k1, kn, v0, v1, vn, o0, on, collapse, tip1, tip2, kstyle, flt, maxlen, uncollapse, fail_first=False):
   shape = params['shape']
   if not (1 <= kn <= 2 and 0 <= vn <= 2 and 1 <= on <= 1):
     raise Assume()
@@ -164,6 +171,13 @@ def h_render(params, k0, k1, kn, v0, v1, vn, o0, on, collapse, tip1, tip2, kstyl
   opts = _options(collapse, tip1, tip2, kstyle, flt, maxlen, uncollapse)
   x = build(shape, key, val, other)
   before = pg.to_json(x) if isinstance(x, pg.Symbolic) else repr(x)
+  if fail_first:
+    # an earlier render on this thread failed part-way under restrictive options: it must leave nothing behind
+    try:
+      pg.to_html(pg.Dict({key: 1, 'boom': Unprintable()}), exclude_keys=[key, 'plain'], enable_summary_tooltip=False,
+                 enable_key_tooltip=False, collapse_level=None)
+    except RuntimeError:
+      pass
   reach('render')
   out = pg.to_html(x, **opts)
   s = out.content if hasattr(out, 'content') else str(out)
@@ -204,11 +218,11 @@ def h_render(params, k0, k1, kn, v0, v1, vn, o0, on, collapse, tip1, tip2, kstyl
 
 _ARGS = [('k0', 'int'), ('k1', 'int'), ('kn', 'int'), ('v0', 'int'), ('v1', 'int'), ('vn', 'int'), ('o0', 'int'), ('on', 'int'),
          ('collapse', 'int'), ('tip1', 'bool'), ('tip2', 'bool'), ('kstyle', 'int'), ('flt', 'int'), ('maxlen', 'int'),
-         ('uncollapse', 'bool')]
+         ('uncollapse', 'bool'), ('fail_first', 'bool')]
 SHAPES = ['dict_kv', 'nested', 'list', 'object', 'plain_dict']
 
 
-def h_render_p(params, k0, k1, kn, v0, v1, vn, o0, on, collapse, tip1, tip2, kstyle, flt, maxlen, uncollapse):
+def h_render_p(params, k0, k1, kn, v0, v1, vn, o0, on, collapse, tip1, tip2, kstyle, flt, maxlen, uncollapse, fail_first):
   # shard-level cut: option sub-vector fixed by the shard, strings symbolic
   if (collapse, kstyle) != (params['collapse'], params['kstyle']):
     raise Assume()
@@ -220,7 +234,9 @@ def h_render_p(params, k0, k1, kn, v0, v1, vn, o0, on, collapse, tip1, tip2, kst
     # all option combinations, key/value from three nasty strings
     if not ((k0, k1, kn) in ((0, 5, 2), (3, 1, 2), (8, 0, 1)) and (v0, v1, vn) in ((0, 7, 2), (2, 0, 1), (0, 0, 0)) and o0 == 0):
       raise Assume()
-  return h_render(params, k0, k1, kn, v0, v1, vn, o0, on, collapse, tip1, tip2, kstyle, flt, maxlen, uncollapse)
+  if fail_first and params.get('family') != 'options':
+    raise Assume()
+  return h_render(params, k0, k1, kn, v0, v1, vn, o0, on, collapse, tip1, tip2, kstyle, flt, maxlen, uncollapse, fail_first)
 
 
 def shards(tier, seed):
